@@ -227,13 +227,17 @@ def _retire(repo, rep):
                     cond = a.test
                 elif isinstance(a, ast.ExceptHandler):
                     cond = a.type or a
-                if cond is not None:
-                    state = [x for x in ast.walk(cond)
-                             if isinstance(x, ast.Attribute)
-                             and src(x.value) == "self"
-                             and x.attr != "__dict__"]
+                conds = [cond] if cond is not None else []
+                if isinstance(a, ast.For):
+                    # a conditional expression in what feeds the loop is a
+                    # guard as well
+                    conds += [x.test for x in ast.walk(a.iter)
+                              if isinstance(x, ast.IfExp)]
+                for cnd in conds:
+                    state = [x for x in ast.walk(cnd)
+                             if isinstance(x, ast.Name) and x.id == "self"]
                     if state or isinstance(a, ast.ExceptHandler):
-                        guard = src(cond)
+                        guard = src(cnd)
                 prev, a = a, getattr(a, "_parent", None)
         rep.check(guard is None, "R16.2", site, "stale entry points are "
                   "retired on every compilation, not depending on template "
